@@ -126,7 +126,7 @@ def main() -> int:
     vs = load_variants()
     if a.variants:
         want = set(a.variants.split(","))
-        vs = [v for v in vs if v["name"] in want or any(v["name"].startswith(w) for w in want)]
+        vs = [v for v in vs if v["name"] in want or any(v["name"].startswith(w + "-") for w in want)]
     if a.kind:
         vs = [v for v in vs if v["kind"] == a.kind]
     t0 = time.time()
